@@ -27,7 +27,17 @@ SPEC = {
                     "values within one rounding error of a bin edge of a grid with non-dyadic parameters)",
                     "a value exactly on an end of a periodic variable's wrapping interval may be reported at either end (the "
                     "documentation does not say which)",
-                    "text forms carry 14-15 significant digits: data that need more are compared at 2e-13 relative, boundaries at 1e-14",
+                    "text forms carry 14-15 significant digits: data that need more are compared at 2e-13 relative; boundaries and "
+                    "widths at 1e-14 for the multicolumn header (15 digits) and at 1e-13 for the parameter block of the restart forms "
+                    "(14 significant digits, the documented precision of Colvars text state); sizes, periodic flags and "
+                    "exactly representable data are compared exactly",
+                    "the per-element-weights clause (vector variables gathered into one histogram) could NOT be exercised: this build "
+                    "rejects every configuration with gatherVectorColvars on (counter gather_vector_configs_rejected, error text in the "
+                    "notes) - src/colvarbias_histogram.cpp:35 enables f_cvb_scalar_variables unconditionally, line 90 enables f_cv_grid "
+                    "which src/colvar.cpp:1246 makes require f_cv_scalar, src/colvargrid.h:295 refuses non-scalar variables, and vector "
+                    "variables do not accept lowerBoundary/upperBoundary; the statement does not promise that the configuration is "
+                    "accepted, so this is recorded, not reported; the reference for weighted accumulation is in place and is used as soon "
+                    "as such a configuration is accepted",
                     "eligible step = not the first call of a run segment, or stepZeroData on (documentation of stepZeroData)",
                     "thermodynamic-integration sample grids and extended-Lagrangian variables are outside this check"],
 }
@@ -43,8 +53,8 @@ META = {
   "note": "Trusted: the harness's integer reference (self-tested at start-up), the engine simulator's step protocol (copied from the "
           "NAMD/LAMMPS proxies), exactness of distanceZ for single atoms on the z axis (asserted at every step: the reported value "
           "must equal the dictated one). Guard cells around the histogram array make writes just outside it visible without a "
-          "sanitizer. Histograms of vector variables cannot be configured at all in the current tree (reported as a finding), so the "
-          "weights clause is exercised only if such a configuration is accepted.",
+          "sanitizer. Histograms of vector variables cannot be configured at all in the current tree (counted and noted, not a "
+          "violation), so the weights clause is exercised only if such a configuration is accepted.",
   "technique": "exhaustive enumeration of edge-aligned value alphabets x grid definitions x run segmentations, and of all small grid "
                "shapes x file forms, against an exact integer reference",
 }
